@@ -118,4 +118,6 @@ package types
 //@ func ValidateSendToVestingAccount(owner, toAddr, vestingPoolName, amount) (ownerAcc, toAcc, err)
 //@   ensures [accepts-exactly] (err == nil) == (vestingPoolName != "" && !amount.IsNil() && amount >= 0 && owner != toAddr && bech32ok(owner) && bech32ok(toAddr))
 //@   ensures err == nil ==> ownerAcc == fromBech32(owner) && toAcc == fromBech32(toAddr)
+//@   // (what the address decoding gives on success: non-empty addresses whose text form is the input)
+//@   ensures err == nil ==> toBech32(ownerAcc) == owner && toBech32(toAcc) == toAddr && len(ownerAcc) > 0 && len(toAcc) > 0 && owner != "" && toAddr != ""
 //@   prop C08 C20
